@@ -27,6 +27,7 @@
 import FwdVerif.Lemmas.C18f
 import FwdVerif.Lemmas.C18g
 import FwdVerif.Lemmas.C18h
+import FwdVerif.Lemmas.C18i
 
 namespace FwdVerif
 namespace C18
@@ -1301,6 +1302,128 @@ theorem c18_shared_dialer_witness :
       ((sentHdr (connRun false (fun i => connectHead (processConnect cfgXhttp ctxW (dialReqs i)))
         (DialState.init _) [0, 1, 0, 0, 1, 1]) 0).join.map fun h => viaElements (outVia h)) =
         some [bs "1.0 fred", ownElement tagX 1] := by
+  decide +kernel
+
+/-! ## L. Where the identity comes from: the construction step and the entropy source
+
+  `Model/C18Tag.lean` `mkInstance name ans`: `NewViaModifier` as a function of what the entropy source
+  answered to the ONE read the constructor makes (`ans = none`: the read failed; `some b`: the bytes
+  delivered).  Uniqueness of the identifier rests on the boundary bytes alone: a constructor that got
+  no entropy yields no instance, instances that got different bytes carry different tags, and so the
+  instances alive after ANY series of constructor calls — failing ones among them, in one process, in one
+  second — carry pairwise different tags as long as the source never delivered the same ten bytes twice.
+  The harness swaps `crypto/rand.Reader` for sources that fail at once / after `k` bytes / between two
+  constructions, deliver short reads, end early, and judges every series of constructor calls by exactly
+  this: no instance, or tags injective (and the fleet clauses between every two live instances). -/
+
+/-- No entropy, no instance: a failed read — and a read that delivered anything but the ten bytes asked
+    for — leaves nothing behind that could identify itself. -/
+theorem c18_no_instance_without_entropy (name : Bytes) :
+    mkInstance name none = none ∧
+      (∀ b : Bytes, b.length ≠ boundaryBytes → mkInstance name (some b) = none) ∧
+      (∀ answers : List (Option Bytes), (∀ a ∈ answers, a = none) →
+        liveInstances (mkInstance name) answers = []) := by
+  refine ⟨rfl, fun b hb => ?_, fun answers ha => ?_⟩
+  · simp only [mkInstance, hb, if_false]
+  · unfold liveInstances
+    rw [List.filterMap_eq_nil_iff]
+    intro a h
+    rw [ha a h]
+    rfl
+
+example : mkInstance (bs "fwd") (some [1, 2, 3]) = none ∧
+    (mkInstance (bs "fwd") (some [1, 35, 69, 103, 137, 171, 205, 239, 1, 35])).map Instance.tag = some tagW := by
+  decide +kernel
+
+/-- What a constructor that got its ten bytes makes of them: a tag of the documented shape
+    (`name-<20 lower-case hex digits>`) under the name it was asked for. -/
+theorem c18_constructed_tag_shape {name : Bytes} {ans : Option Bytes} {i : Instance}
+    (h : mkInstance name ans = some i) : TagShape name i.tag ∧ i.name = name := by
+  cases ans with
+  | none => cases h
+  | some b =>
+    obtain ⟨hl, hi⟩ := mkInstance_some h
+    subst hi
+    refine ⟨⟨hexEnc b, rfl, ?_, hexEnc_lower b⟩, rfl⟩
+    rw [hexEnc_length, hl]
+    rfl
+
+/-- The tag is an injective function of the boundary bytes (and of nothing else): two constructors under
+    one name yield the same tag exactly when the entropy source handed both the same ten bytes. -/
+theorem c18_distinct_entropy_distinct_tags {name b₁ b₂ : Bytes} {i₁ i₂ : Instance}
+    (h₁ : mkInstance name (some b₁) = some i₁) (h₂ : mkInstance name (some b₂) = some i₂) :
+    i₁.tag = i₂.tag ↔ b₁ = b₂ := by
+  obtain ⟨_, e₁⟩ := mkInstance_some h₁
+  obtain ⟨_, e₂⟩ := mkInstance_some h₂
+  subst e₁ e₂
+  exact ⟨fun h => hexEnc_inj (mkTag_inj h), fun h => by rw [h]⟩
+
+example : ∃ i₁ i₂, mkInstance (bs "fwd") (some [1, 35, 69, 103, 137, 171, 205, 239, 1, 35]) = some i₁ ∧
+    mkInstance (bs "fwd") (some [1, 35, 69, 103, 137, 171, 205, 239, 1, 36]) = some i₂ ∧
+    i₁.tag = tagW ∧ i₂.tag = tagX := ⟨_, _, rfl, rfl, by decide +kernel, by decide +kernel⟩
+
+/-- After ANY series of constructor calls under one name (`none` entries: calls during which the entropy
+    source failed): if the source never delivered the same bytes twice, the instances that exist carry
+    pairwise different tags of the documented shape — `id` is injective over the live instances, which is
+    the hypothesis of `c18_distinct_instances_forwarded`. -/
+theorem c18_live_instances_unique_if_entropy_distinct (name : Bytes) (answers : List (Option Bytes))
+    (hd : (answers.filterMap id).Nodup) :
+    ((liveInstances (mkInstance name) answers).map Instance.tag).Nodup ∧
+      (∀ i ∈ liveInstances (mkInstance name) answers, TagShape name i.tag) ∧
+      Function.Injective (fun k : Fin ((liveInstances (mkInstance name) answers).map Instance.tag).length =>
+        ((liveInstances (mkInstance name) answers).map Instance.tag)[k]) := by
+  have hn := liveTags_pairwise name answers hd
+  refine ⟨hn, fun i hi => ?_, fun k₁ k₂ hk => ?_⟩
+  · obtain ⟨a, _, ha⟩ := List.mem_filterMap.mp hi
+    exact (c18_constructed_tag_shape ha).1
+  · exact Fin.ext ((List.getElem_inj hn).mp hk)
+
+example : ((liveInstances (mkInstance (bs "fwd"))
+      [none, some [1, 35, 69, 103, 137, 171, 205, 239, 1, 35], none, some [1, 2, 3],
+       some [1, 35, 69, 103, 137, 171, 205, 239, 1, 36]]).map Instance.tag) = [tagW, tagX] := by
+  decide +kernel
+
+/-- … and therefore every two of them forward each other's requests: what live instance `k₁` forwarded
+    is forwarded by any other live instance `k₂` constructed under the same name. -/
+theorem c18_live_instances_forward_each_other (name : Bytes) (answers : List (Option Bytes))
+    (hd : (answers.filterMap id).Nodup) (hname : name.all isTokenByte = true)
+    (base : Fin ((liveInstances (mkInstance name) answers).map Instance.tag).length → Cfg)
+    {k₁ k₂ : Fin ((liveInstances (mkInstance name) answers).map Instance.tag).length} (hk : k₁ ≠ k₂)
+    {ctx ctx' : Ctx} {r : Request} {hop : Hop} {out : OutMsg}
+    (h : processRequest (instCfg (fun k => ((liveInstances (mkInstance name) answers).map Instance.tag)[k]) base k₁) ctx r
+      = .forwarded hop out)
+    (hri : rulesAvoidVia (base k₁).rules = true)
+    (hn : viaNominated r.fields = false) (hn' : viaNominated (reinject out).fields = false)
+    (hclean : ∀ e ∈ viaElements (viaLines r.fields),
+      ¬ ((liveInstances (mkInstance name) answers).map Instance.tag)[k₂] <:+: e)
+    (hreach : reachesVia (instCfg (fun k => ((liveInstances (mkInstance name) answers).map Instance.tag)[k]) base k₂)
+      ctx' (reinject out) = true)
+    (hup : (base k₂).upstream ≠ .failed) :
+    isForwarded (processRequest
+      (instCfg (fun k => ((liveInstances (mkInstance name) answers).map Instance.tag)[k]) base k₂) ctx' (reinject out)) = true := by
+  obtain ⟨_, hshape, hinj⟩ := c18_live_instances_unique_if_entropy_distinct name answers hd
+  refine c18_distinct_instances_forwarded name _ base hinj (fun k => ?_) hname hk h hri hn hn' hclean hreach hup
+  obtain ⟨i, hi, he⟩ := List.mem_map.mp (List.getElem_mem k.isLt)
+  have hs := hshape i hi
+  rw [he] at hs
+  exact hs
+
+/-- Witness (NOT the code): a constructor that answers a failed read with a boundary made of the process
+    id and the time in seconds.  Two constructor calls under one name while the source is down — one
+    process, one second — leave TWO live instances with ONE tag; the tag has the documented shape, so
+    nothing about a single instance gives it away; the chain A → B, which the property says is
+    forwarded, ends with `400 loop` at B.  The code under the same answers: no instance at all. -/
+theorem c18_entropy_fallback_witness :
+    (liveInstances (mkInstanceFallback 1 1790000000 (bs "fwd")) [none, none]).map Instance.tag =
+        [bs "fwd-0001000000006ab13b80", bs "fwd-0001000000006ab13b80"] ∧
+      tagShape (bs "fwd") (bs "fwd-0001000000006ab13b80") = true ∧
+      (runLoop [({ cfgWhttps with tag := bs "fwd-0001000000006ab13b80" }, ctxW),
+                ({ cfgWhttps with tag := bs "fwd-0001000000006ab13b80" }, ctxW)]
+          2 0 reqPlain).map isLoopRefusal = [false, true] ∧
+      liveInstances (mkInstance (bs "fwd")) [none, none] = [] ∧
+      (liveInstances (mkInstanceFallback 1 1790000000 (bs "fwd"))
+          [some [1, 35, 69, 103, 137, 171, 205, 239, 1, 35], some [1, 35, 69, 103, 137, 171, 205, 239, 1, 36]]).map
+        Instance.tag = [tagW, tagX] := by
   decide +kernel
 
 end C18
